@@ -42,7 +42,8 @@ ANY == -4              \* the property does not say
 ASSERT == -5           \* (as-built model only) the compiler dies of an internal assertion instead of reporting UNRES
 LOCALV == 99
 BOUNDV == 77
-Spellings == {"bare", "al", "fqA", "fqB", "loc", "var", "bind"}
+\* "redef": inside (binding [n 77] ...) the Var is def-ed again (same root) and then read: the thread binding stays
+Spellings == {"bare", "al", "fqA", "fqB", "loc", "var", "bind", "redef"}
 Modes == {"d", "i"}
 
 DefVal(x, n, t) == 100 * IxNs(x) + 10 * IxN(n) + t
@@ -120,6 +121,7 @@ Resolve(n, sp) ==
     [] sp = "loc"  -> <<"local", "-", "-">>
     [] sp = "var"  -> (IF ResolveBare(n) = RCode(PRIV) THEN RCode(ANY) ELSE ResolveBare(n))   \* (var n) is not a read
     [] sp = "bind" -> ResolveBare(n)
+    [] sp = "redef" -> ResolveBare(n)
 
 (* ------------------------------ what a read may yield -------------------------------- *)
 (* plain Var, direct linking: the value last given by def -- a root mutation may or may not be seen;   *)
@@ -132,6 +134,9 @@ Req(n, sp, m) ==
   CASE sp = "loc" -> {LOCALV}
     [] sp = "var" -> IF IsVar(r) THEN {Ident(r[2], r[3])} ELSE {r[2]}
     [] sp = "bind" -> IF IsVar(r) /\ V(r[2], r[3]).fl = "dyn" THEN {BOUNDV} ELSE {ANY}
+    \* a value given by a thread binding is what a read sees until the binding form is left, also when the root
+    \* is given again by def meanwhile (a dynamic Var of the current namespace, def-ed again as dynamic)
+    [] sp = "redef" -> IF IsVar(r) /\ r[2] = cur /\ V(r[2], r[3]).fl = "dyn" THEN {BOUNDV} ELSE {ANY}
     [] OTHER -> IF IsVar(r) THEN ValueSet(r[2], r[3], m) ELSE {r[2]}
 
 (* ------------------------------ properties of the required level --------------------- *)
